@@ -112,7 +112,7 @@ def _io(prefix, io, shorts, intrs, tier="quick", timeout=300):
 
 
 def wfile_obls(prefix):
-    out = [_io(prefix, 0, 3, 2)]
+    out = [_io(prefix, 0, 2, 2), _io(prefix, 0, 3, 2, tier="thorough", timeout=1200)]
     # inductive steps: log-like name (no directory sync) and MANIFEST name, both sync configurations
     for fds in (1, 0):
         for op in (1, 2, 3, 4):
@@ -189,8 +189,52 @@ def lockfile_finding_obls(prefix):
     return [_lock(prefix, [0, 1], ["REFUSED"], posix=1, known="C20-lockfile-close-drops-posix-lock")]
 
 
+MISC = {
+    1: ("paths", "ldb_remove_file/ldb_rename_file/ldb_create_dir/ldb_remove_dir/ldb_file_size: exactly one libc call with the caller's "
+        "arguments, OK iff it succeeded, else its errno unchanged (ENOENT...); ldb_system_error: errno 0 -> LDB_IOERR, never LDB_OK",
+        ["ldb_remove_file", "ldb_rename_file", "ldb_create_dir", "ldb_remove_dir", "ldb_file_size", "ldb_system_error"]),
+    2: ("sync_dir", "ldb_sync_dir: open O_RDONLY (EINTR retried), fsync/fdatasync (ENOSYS fallback), descriptor closed exactly once on "
+        "every path, errno of open or sync returned, EINVAL/EBADF of the directory sync tolerated",
+        ["ldb_sync_dir", "ldb_open", "ldb_try_open", "ldb_fsync", "ldb_system_error"]),
+    3: ("seqfile", "ldb_seqfile_create + ldb_rfile_read (symbolic count) + ldb_rfile_skip + destroy: result is exactly the bytes "
+        "delivered (never more), shorter only at EOF, errno returned, result untouched on error, descriptor closed once",
+        ["ldb_seqfile_create", "ldb_rfile_read", "ldb_read", "ldb_rfile_skip", "ldb_rfile_destroy", "ldb_rfile_close"]),
+    4: ("randfile", "ldb_randfile_create (no mmap; descriptor limiter granting or refusing by symbolic RLIMIT_NOFILE) + ldb_rfile_pread "
+        "with a kept descriptor or per-call open/close: result is exactly the bytes delivered, zero on error, errno returned, the "
+        "per-call descriptor is closed once also on error, offsets beyond off_t refused, limiter slot returned",
+        ["ldb_randfile_create", "ldb_randfile_init", "ldb_rfile_pread", "ldb_rfile_pread0", "ldb_pread", "ldb_limiter_acquire",
+         "ldb_limiter_release", "ldb_env_init", "env_init", "ldb_max_open_files", "ldb_strdup", "ldb_rfile_destroy"]),
+    5: ("mapfile", "ldb_randfile_create with mmap: fstat/mmap errors returned with descriptor closed and limiter slot returned; mapped "
+        "pread inside the mapping only (offset+count overflow and out-of-range refused with EINVAL); destroy unmaps once",
+        ["ldb_randfile_create", "ldb_mapfile_init", "ldb_rfile_pread0", "ldb_rfile_close"]),
+    6: ("read_file", "ldb_read_file: chunks appended in order with exactly the delivered sizes until EOF, errno of open/read returned, "
+        "file closed once on every path",
+        ["ldb_read_file", "ldb_seqfile_create", "ldb_rfile_read", "ldb_read", "ldb_rfile_destroy"]),
+}
+
+
+def _misc(prefix, m, fdatasync=1, shorts=1, intrs=1, reads=1000, kept=1, tier="quick", timeout=300):
+    tag, desc, funcs = MISC[m]
+    nm = "%s.%s%s" % (prefix, tag, "" if fdatasync else "-nopread-fsync")
+    if m == 4:
+        nm += ("-percall", "-kept", "-limiter")[kept]
+    uw = {"ldb_open.0": intrs + 2, "ldb_fsync.0": intrs + 2, "ldb_read.0": intrs + 2, "ldb_read.1": shorts + 3,
+          "ldb_pread.0": intrs + 2, "ldb_pread.1": shorts + 3, "vp_streq.0": 16, "strlen.0": 16, "vp_memcpy.0": 16,
+          "ldb_read_file.0": reads + 2}
+    return Obl(nm, "envunix/rwmisc.c", real=[], include_real=["util/env.c", "util/env_unix_impl.h"],
+               kit=["vp_nondet.c", "vp_mem.c"], defs={"VP_M": m, "VP_SHORTS": shorts, "VP_INTRS": intrs, "VP_READS": reads, "VP_KEPT": kept},
+               real_defs=(POSIX_DEFS if fdatasync else {}), unwind=8, unwindset=uw, sat="cadical", timeout=timeout, tier=tier,
+               functions=funcs, desc="real code over libc models: " + desc,
+               bounds="every libc call may fail with any errno; <=%d EINTR, <=%d short reads; counts symbolic 0..20000, offsets 64-bit symbolic"
+                      % (intrs, shorts))
+
+
 def rwmisc_obls(prefix):
-    out = [_io(prefix, 1, 3, 2), _io(prefix, 2, 3, 2)]
+    out = [_io(prefix, 1, 2, 2), _io(prefix, 2, 2, 2)]
+    out += [_misc(prefix, 1), _misc(prefix, 2), _misc(prefix, 2, fdatasync=0), _misc(prefix, 3), _misc(prefix, 4, kept=1, intrs=0),
+            _misc(prefix, 4, kept=0, shorts=0, intrs=0), _misc(prefix, 4, kept=2), _misc(prefix, 4, kept=1, fdatasync=0, intrs=0),
+            _misc(prefix, 5, intrs=0, shorts=0), _misc(prefix, 6, reads=2, shorts=1, intrs=0)]
+    out += [_io(prefix, 1, 3, 2, tier="thorough", timeout=1200), _io(prefix, 2, 3, 2, tier="thorough", timeout=1200)]
     return out
 
 
